@@ -52,10 +52,10 @@ class StripCommentsFilter:
             if token.ttype in sql_hints:
                 is_sql_hint = True
             elif isinstance(token, sql.Comment):
-                comment_tokens = token.tokens
-                if len(comment_tokens) > 0:
-                    if comment_tokens[0].ttype in sql_hints:
-                        is_sql_hint = True
+                # The plain comments of the group are gone already (sublists
+                # are processed first), a hint may be left anywhere in it.
+                if any(t.ttype in sql_hints for t in token.flatten()):
+                    is_sql_hint = True
 
             if is_sql_hint:
                 # using current index as start index to search next token for
